@@ -9,7 +9,10 @@ def extra_lines(rng, tier):
         nt = rng.choice([2, 3, 4, 6, 8])
         threads = "#".join(";".join(["NEXT"] * rng.randint(1, 5)) for _ in range(nt))
         # generators that have already issued many ids: decimal-length and word boundaries of the counter
-        g0 = rng.choice([0, 0, 8, 98, 997, 9997, 9998, 9999, 10000, 99998, (1 << 32) - 2, (1 << 53) - 1, (1 << 64) - 3])
+        # decimal-length boundaries 10^k - 2 .. 10^k + 2, word boundaries, and random 64-bit values
+        k = rng.randint(1, 19)
+        g0 = rng.choice([0, 0, 10 ** k - 2, 10 ** k - 2, 10 ** k, 10 ** k + rng.randint(0, 10 ** max(k - 2, 0)),
+                         (1 << 32) - 2, (1 << 53) - 1, (1 << 64) - 3, rng.randint(0, (1 << 64) - 50)])
         out.append("g%d|100||%s|%s%d|mode=O,proj=gen+map+tk,gen0=%d" % (i, threads, rng.choice("rp"), rng.randint(1, 10 ** 9), g0))
     return out
 
